@@ -2,6 +2,7 @@ import MgModel.Generated.Bits
 import MgModel.C20.Bits
 import MgModel.C01.Channel
 import MgModel.C02.Ring
+import MgModel.C07.BytesBuffer
 /-!
 # Tie A — the generated definitions are the hand-written models
 
@@ -40,5 +41,16 @@ theorem ring_eq (i cap : Nat) (hi : i < 2 ^ 32) (hc1 : 1 ≤ cap) (hc : cap < 2 
 theorem ringIdx_eq (i cap : Nat) (hi : i < 2 ^ 32) (hc1 : 1 ≤ cap) (hc : cap < 2 ^ 32) :
     (Generated.idxInPow2Ring (BitVec.ofNat 32 i) (BitVec.ofNat 32 cap)).toNat = C02.ringIdx i cap :=
   ring_eq i cap hi hc1 hc
+
+/-! ## bytes buffer: the four space helpers (C07) -/
+
+theorem bbContiguousWritable_eq (s : C07.BB) :
+    Generated.bbContiguousWritable s.c s.w s.r s.t = C07.contiguousWritable s := rfl
+theorem bbJumpWritable_eq (s : C07.BB) :
+    Generated.bbJumpWritable s.c s.w s.r s.t = C07.jumpWritable s := rfl
+theorem bbJumpReadable_eq (s : C07.BB) :
+    Generated.bbJumpReadable s.c s.w s.r s.t = C07.jumpReadable s := rfl
+theorem bbContiguousReadable_eq (s : C07.BB) :
+    Generated.bbContiguousReadable s.c s.w s.r s.t = C07.contiguousReadable s := rfl
 
 end MgProof.Tie
